@@ -59,7 +59,8 @@ def anchors(prop):
 
 _scope_cache = {}
 EXTRA_OWNERS = {
-    "C01": ("Network._init_morph_jaxley_spsolve", "Network._init_morph_jax_spsolve", "merge_cells", "remap_to_consecutive"),
+    "C01": ("Network._init_morph_jaxley_spsolve", "Network._init_morph_jax_spsolve", "merge_cells", "remap_to_consecutive", "step_voltage_implicit_with_jaxley_spsolve", "step_voltage_implicit_with_jax_spsolve", "step_voltage_explicit",
+            "compute_axial_conductances"),
     "C07": ("nested_checkpoint_scan", "_inner_nested_scan", "build_init_and_step_fn"),
     "C06": ("build_init_and_step_fn",),
     "C02": ("Network._init_morph_jaxley_spsolve", "Cell._init_morph_jaxley_spsolve", "remap_index_to_masked", "merge_cells",
@@ -68,6 +69,8 @@ EXTRA_OWNERS = {
             "Network._init_morph_jax_spsolve"),
     "C15": ("step_voltage_implicit_with_jaxley_spsolve", "step_voltage_implicit_with_jax_spsolve", "Module.get_all_parameters"),
     "C11": ("Module._external_input",),
+    # several stimuli / clamps on one module accumulate in the module's own containers
+    "C08": ("Module._external_input", "Module._data_external_input"),
     "C19": ("Module._external_input", "Module.delete_clamps", "Module.set_ncomp"),
     "C13": ("Module._iter_submodules",),
     "C20": ("Network._init_morph_jax_spsolve", "Network._append_multiple_synapses"),
@@ -686,6 +689,160 @@ def role_tokens(repo, col, prop):
     col.info["role_named_bindings_checked"] = n
 
 
+def _selector_chain(t):
+    """A[S1][S2]... -> (keys of the non-constant selectors S1, S2, ...); column names / constant positions select a FIELD, not rows"""
+    ch = []
+    while t.op in ("sub", "mcall", "call") and t.args:
+        if t.op == "sub":
+            s_ = t.args[1]
+            if not (s_.op == "const" or s_.op == "slice"):
+                ch.append(s_.key())
+            t = t.args[0]
+        elif t.op == "mcall" and t.name in ("to_list", "to_numpy", "tolist", "copy", "astype", "flatten", "ravel"):
+            t = t.args[0]
+        elif t.name in ("asarray", "array", "list", "tuple") and len(t.args) >= 1:
+            t = t.args[-1] if t.op == "call" else (t.args[1] if len(t.args) > 1 else t.args[0])
+        else:
+            break
+    return tuple(reversed(ch))
+
+
+def empty_guards(repo, col, prop):
+    """`if len(X) > 0: <use of the selection>`: the selection that is tested for emptiness is the one the guarded statements
+    work on.  X = A[S...] is identified by its chain of row selectors (masks / index arrays): the same chain must occur in the
+    guarded statements; a plain X must occur itself.  A guard that tests ANOTHER selection skips (or runs) the block for the
+    wrong inputs -- e.g. drops the branch-point terms of the diagonal whenever there are no within-branch edges."""
+    from . import idx
+    R = f"R-{prop}-guards"
+    sc, ents, _ = scope(repo, prop)
+    n = 0
+    for fi in repo.all_functions():
+        if (fi.file, fi.qual) not in sc or fi.file in SKIP_FILES:
+            continue
+        ifs = [x for x in walk_no_nested(fi.node) if isinstance(x, ast.If)]
+        ifs = [x for x in ifs if isinstance(x.test, ast.Compare) and len(x.test.ops) == 1 and isinstance(x.test.ops[0], (ast.Gt, ast.NotEq, ast.GtE))
+               and isinstance(x.test.left, ast.Call) and isinstance(x.test.left.func, ast.Name) and x.test.left.func.id == "len"
+               and isinstance(x.test.comparators[0], ast.Constant) and x.test.comparators[0].value in (0, 1) and len(x.test.left.args) == 1]
+        if not ifs:
+            continue
+        ex = idx.expander(repo, fi)
+        for st in ifs:
+            X = ex.term(st.test.left.args[0])
+            chain = _selector_chain(X)
+            # terms of the guarded statements: scatters / gathers
+            body_terms = []
+            for b in st.body:
+                for y in ast.walk(b):
+                    if isinstance(y, ast.Subscript) and isinstance(y.ctx, ast.Load):
+                        body_terms.append(ex.term(y))
+                    elif isinstance(y, ast.Call) and isinstance(y.func, ast.Attribute) and y.func.attr in ("add", "set"):
+                        body_terms += [ex.term(a_) for a_ in y.args]
+            if not body_terms:
+                continue
+            n += 1
+            if chain:
+                chains = set()
+                for bt in body_terms:
+                    for z in bt.walk():
+                        if z.op == "sub":
+                            c_ = _selector_chain(z)
+                            if c_:
+                                chains.add(c_)
+                if not chains:
+                    col.ok(R, fi, f"{fi.qual}: `{ast.unparse(st.test)}` guards the selection it tests", "no row selection in the guarded block", node=st)
+                    continue
+                ok = any(c_[:len(chain)] == chain or chain[:len(c_)] == c_ for c_ in chains)
+            else:
+                xk = X.key()
+                ok = any(T_find_key(bt, xk) for bt in body_terms)
+                if not ok and X.op in ("param", "free", "attr"):
+                    ok = None  # a whole array whose relation to the block is not visible
+            if ok is None:
+                col.ok(R, fi, f"{fi.qual}: `{ast.unparse(st.test)}` guards the selection it tests", "whole-array guard", node=st)
+            else:
+                col.check(ok, R, fi, f"{fi.qual}: `{ast.unparse(st.test)}` guards the selection it tests",
+                          "the rows tested for emptiness are the rows the guarded statements work on",
+                          f"`{ast.unparse(st.test)[:70]}` tests the selection `{X.short(70)}`, but the guarded statements work on other selections: "
+                          f"the block is skipped (or run) for the wrong inputs", node=st)
+    col.rule(R, "emptiness guards test the selection that the guarded block uses", 0)
+
+
+def membership_guards(repo, col, prop):
+    """`if key in D: D[key] = f(D[key]) else: D[key] = new`: the container that is tested is the container that is read / written
+    under the test.  A view holds restricted COPIES of the module's containers under the same attribute names (`self.externals`
+    vs `self.base.externals`, `self.groups` vs `self.base.groups`, ...): testing one and updating the other appends to (or
+    overwrites) the wrong entries whenever the view does not contain the key."""
+    R = f"R-{prop}-membership"
+    sc, ents, _ = scope(repo, prop)
+
+    def chain(n):
+        """attribute chain of a container expression, `.keys()` stripped"""
+        if isinstance(n, ast.Call) and isinstance(n.func, ast.Attribute) and n.func.attr == "keys" and not n.args:
+            n = n.func.value
+        parts = []
+        while isinstance(n, ast.Attribute):
+            parts.append(n.attr)
+            n = n.value
+        if isinstance(n, ast.Name):
+            parts.append(n.id)
+            return tuple(reversed(parts))
+        return None
+
+    def test_of(t):
+        if isinstance(t, ast.Compare) and len(t.ops) == 1 and isinstance(t.ops[0], (ast.In, ast.NotIn)):
+            D = chain(t.comparators[0])
+            if D is not None and len(D) >= 2:
+                return ast.unparse(t.left), D, t
+        return None
+
+    n_inst = 0
+    for fi in repo.all_functions():
+        if (fi.file, fi.qual) not in sc or fi.file in SKIP_FILES:
+            continue
+        verdict = {}   # id(test node) -> [test, D, ksrc, same, other]
+
+        def visit(n, stack):
+            if isinstance(n, (ast.FunctionDef, ast.AsyncFunctionDef, ast.Lambda, ast.ClassDef)) and n is not fi.node:
+                return
+            if isinstance(n, (ast.If, ast.IfExp)):
+                tt = test_of(n.test)
+                visit(n.test, stack)
+                inner = stack + [tt] if tt else stack
+                for c in (n.body + n.orelse) if isinstance(n, ast.If) else [n.body, n.orelse]:
+                    visit(c, inner)
+                return
+            if isinstance(n, ast.Subscript):
+                c_ = chain(n.value)
+                ks = ast.unparse(n.slice)
+                if c_ is not None and len(c_) >= 2:
+                    # the NEAREST enclosing test of this key against a container of the same name decides
+                    for ent in reversed(stack):
+                        if ent[0] == ks and ent[1][-1] == c_[-1]:
+                            v = verdict.setdefault(id(ent[2]), [ent[2], ent[1], ks, [], []])
+                            (v[3] if c_ == ent[1] else v[4]).append(c_)
+                            break
+            for c in ast.iter_child_nodes(n):
+                visit(c, stack)
+
+        for st in fi.node.body:
+            visit(st, [])
+        for tnode, D, ksrc, same, other in verdict.values():
+            n_inst += 1
+            col.check(not other, R, fi, f"{fi.qual}: `{ast.unparse(tnode)[:60]}` tests the container it updates",
+                      f"{'.'.join(D)}[{ksrc}]",
+                      f"the test looks `{ksrc}` up in `{'.'.join(D)}` but the guarded statements use `{'.'.join(other[0]) if other else ''}[{ksrc}]`: "
+                      f"one is the view's restricted copy, the other the module's own container; a key that exists in only one of them is "
+                      f"overwritten instead of extended (or the reverse)", node=tnode)
+    col.rule(R, "membership tests look the key up in the container that is then read / written", 0)
+
+
+def T_find_key(t, key):
+    for z in t.walk():
+        if z.key() == key:
+            return True
+    return False
+
+
 def must_stores(repo, col, prop):
     """Stores that re-establish an invariant are unconditional (table MUST_STORE in rules/mustcall_table.py)."""
     from .mustcall_table import MUST_STORE
@@ -729,5 +886,7 @@ def run_all(prop, repo, col, tier):
     must_stores(repo, col, prop)
     arg_names(repo, col, prop)
     role_tokens(repo, col, prop)
+    empty_guards(repo, col, prop)
+    membership_guards(repo, col, prop)
     if pending is not None:
         raise pending
